@@ -37,10 +37,31 @@ thread_local! {
     static WRITER_GUARD: std::cell::RefCell<Option<ExitGuard>> = const { std::cell::RefCell::new(None) };
 }
 
-/// The simulated wall clock.
+static CLOCK_HELD: Mutex<bool> = Mutex::new(false);
+static CLOCK_RELEASED: Condvar = Condvar::new();
+
+/// The simulated wall clock.  Blocks while the harness holds the clock
+/// (see [`hold_clock`]), which is how the harness lets events queue up behind the writer.
 #[must_use]
 pub fn now() -> SystemTime {
+    let mut held = CLOCK_HELD
+        .lock()
+        .unwrap_or_else(std::sync::PoisonError::into_inner);
+    while *held {
+        held = CLOCK_RELEASED
+            .wait(held)
+            .unwrap_or_else(std::sync::PoisonError::into_inner);
+    }
+    drop(held);
     SystemTime::UNIX_EPOCH + Duration::from_nanos(CLOCK_NS.load(Ordering::SeqCst))
+}
+
+/// While `held` is true, every thread that reads the simulated clock waits.
+pub fn hold_clock(held: bool) {
+    *CLOCK_HELD
+        .lock()
+        .unwrap_or_else(std::sync::PoisonError::into_inner) = held;
+    CLOCK_RELEASED.notify_all();
 }
 
 /// Sets the simulated wall clock, in nanoseconds since the epoch.
